@@ -14,7 +14,8 @@ use crate::{errors, rpc_errors};
 
 use bitcoin::{Transaction, Txid};
 use bitcoincore_rpc::{
-    jsonrpc::error::Error::Rpc as RpcError, jsonrpc::error::Error::Transport as TransportError,
+    jsonrpc::error::Error::Json as JsonError, jsonrpc::error::Error::Rpc as RpcError,
+    jsonrpc::error::Error::Transport as TransportError,
     Client as BitcoindClient, Error::JsonRpc as JsonRpcError, RpcApi,
 };
 
@@ -152,8 +153,9 @@ impl Carrier {
                     ConfirmationStatus::Rejected(errors::UNKNOWN_JSON_RPC_EXCEPTION)
                 }
             },
-            Err(JsonRpcError(TransportError(_))) => {
-                // Connection refused, bitcoind is down.
+            // Connection refused, bitcoind is down. Or the connection was lost while the reply was on its way (a reply that
+            // ends in the middle is reported as a parsing error): that is not a verdict on the transaction either.
+            Err(JsonRpcError(TransportError(_))) | Err(JsonRpcError(JsonError(_))) => {
                 log::error!("Connection lost with bitcoind, retrying request when possible");
                 self.flag_bitcoind_unreachable();
                 self.send_transaction(tx)
@@ -191,8 +193,8 @@ impl Carrier {
                     false
                 }
             },
-            Err(JsonRpcError(TransportError(_))) => {
-                // Connection refused, bitcoind is down.
+            // Connection refused, bitcoind is down (or the connection was lost while the reply was on its way).
+            Err(JsonRpcError(TransportError(_))) | Err(JsonRpcError(JsonError(_))) => {
                 log::error!("Connection lost with bitcoind, retrying request when possible");
                 self.flag_bitcoind_unreachable();
                 self.in_mempool(txid)
